@@ -134,6 +134,9 @@ func tmpDir() string {
 	return d
 }
 
+// dispatchDeadline: no further worker is started after it (exploration phase).
+var dispatchDeadline time.Time
+
 // runWorker runs seeds [a,b) and returns the results, resuming after runs that made the worker stop.
 func runWorker(a, b uint64, extra []string) ([]Result, error) {
 	var out []Result
@@ -167,6 +170,9 @@ func runWorker(a, b uint64, extra []string) ([]Result, error) {
 		last := rs[len(rs)-1]
 		if ee, ok := err.(*exec.ExitError); ok && ee.ExitCode() == 10 {
 			a = last.Spec.Seed + 1
+			if !dispatchDeadline.IsZero() && time.Now().After(dispatchDeadline) {
+				return out, nil // the budget is used up: the rest of this chunk is not run
+			}
 			continue
 		}
 		return out, fmt.Errorf("worker for seeds %d:%d died after seed %d: %v\n%s", a, b, last.Spec.Seed, err, tail(stderr.String(), 6000))
@@ -509,6 +515,7 @@ func main() {
 	var mu sync.Mutex
 	var results []Result
 	var workerErr error
+	dispatchDeadline = t0.Add(*fBudget)
 	next := 0
 	var wg sync.WaitGroup
 	for w := 0; w < *fWorkers; w++ {
@@ -536,6 +543,7 @@ func main() {
 		}()
 	}
 	wg.Wait()
+	dispatchDeadline = time.Time{}
 	sort.Slice(results, func(i, j int) bool { return results[i].Spec.Seed < results[j].Spec.Seed })
 	exploreWall := time.Since(t0)
 	var enumDesc map[string]any
